@@ -535,7 +535,7 @@ def run(ctx):
 
     # ---------------------------------------------------------------- R12
     r = ctx.rule("C12-R12", "READONLY", "queries answer from what was registered and leave no trace: the listener store is a plain dict (reading a missing key cannot create it) and "
-                 "get_listener_priority returns a priority only on a path where the listener was found in that bucket", reference=3)
+                 "get_listener_priority returns a priority only on a path where the listener was found in that bucket", reference=2)
     init_ = methods["__init__"]
     store_init = [n.value for n in walk_no_nested(init_.node) if isinstance(n, ast.Assign) and any(is_self_attr(t, STORE) for t in n.targets)]
     plain = store_init and all(isinstance(v, ast.Dict) or (isinstance(v, ast.Call) and isinstance(v.func, ast.Name) and v.func.id in ("dict", "OrderedDict") and not v.args) for v in store_init)
